@@ -209,6 +209,43 @@ def check_object(obj, case) -> Optional[C.Failing]:
                 if d:
                     return C.Failing("xml:roundtrip:second-read-sees-edits-of-first", f"{type(obj).__name__} via store document, read again "
                                      f"after the first result was edited in place: {d[:200]}", case, d)
+            # (round 6) instances of application-defined subclasses of every class hold the same model
+            touched = c03.reclass_tree(obj)
+            try:
+                buf = io.BytesIO()
+                write_aas_xml_file(buf, model.DictObjectStore([obj]))
+                buf.seek(0)
+                objs4 = list(read_aas_xml_file(buf, failsafe=False))
+            finally:
+                for o, c in touched:
+                    o.__class__ = c
+            d = canon.diff(c1, canon.canon(objs4[0])) if len(objs4) == 1 else f"{len(objs4)} objects read"
+            if d:
+                return C.Failing("xml:roundtrip:subclass-instances:" + c03.sig_of(d, "xml", c1).split(":", 2)[-1],
+                                 f"a store of instances of application-defined subclasses ({type(obj).__name__}): {d[:200]}", case, d)
+            # (round 6) a write that fails half-way leaves the caller's stream usable
+            import gc
+            import dateutil.relativedelta as rd
+            bad = model.Submodel("urn:vf:rejected", [model.Property("d", model.datatypes.Duration, rd.relativedelta(months=1, days=-1))])
+            buf = io.BytesIO()
+            try:
+                write_aas_xml_file(buf, model.DictObjectStore([obj, bad]))
+                failed = False
+            except Exception:
+                failed = True
+            if failed:
+                gc.collect()
+                try:
+                    buf.seek(0); buf.truncate()
+                    write_aas_xml_file(buf, model.DictObjectStore([obj]))
+                    buf.seek(0)
+                    objs5 = list(read_aas_xml_file(buf, failsafe=False))
+                except Exception as e:
+                    return C.Failing(f"xml:roundtrip:stream-unusable-after-failed-write:{type(e).__name__}", f"after a write that raised half-way the "
+                                     f"caller's stream no longer takes a valid store: {e!r}"[:300], case)
+                d = canon.diff(c1, canon.canon(objs5[0])) if len(objs5) == 1 else "count"
+                if d:
+                    return C.Failing("xml:roundtrip:after-failed-write", f"{type(obj).__name__} written after a failed write: {d[:200]}", case, d)
     except Exception as e:
         return C.Failing(f"xml:roundtrip:raises:{type(e).__name__}", f"{type(obj).__name__}: {e!r}"[:300], case)
     return None
